@@ -146,7 +146,30 @@ def histories(rng, tier):
     out.append(("chanflow-same", "agree-flow", pkg_chanflow("Celsius"), {"a.go": pkg_chanflow("Celsius")["a.go"] + "\n// edited\n"}))
     out.append(("keys-retyped", "stale-flow", pkg_keys("string"), pkg_keys("int")))
     out.append(("keys-same", "agree-flow", pkg_keys("string"), {"a.go": pkg_keys("string")["a.go"] + "\n// edited\n"}))
+    # histories run with -autoname / -dedup: the second version adds a call that clashes with one the old file
+    # already serves; names, generated functions AND the rewritten user files must come out as from scratch
+    for flags, second in ((["-autoname"], "deriveEqual"), (["-dedup"], "deriveEqualAgain"), (["-autoname", "-dedup"], "deriveEqual")):
+        for where in ("same-file", "other-file", "before"):
+            for t2 in ("*Path", "*Point"):
+                if (t2 == "*Point") != (flags == ["-dedup"]) and flags != ["-autoname", "-dedup"]:
+                    continue      # -autoname alone: conflicts only; -dedup alone: duplicates only
+                v1, v2 = pkg_clash(second, t2, where)
+                out.append(("clash-%s-%s-%s" % ("".join(f[1] for f in flags), where, t2.strip("*")), "no-flow", v1, v2, flags))
     return out
+
+
+def pkg_clash(second, t2, where):
+    head = "package hist\n\ntype Point struct{ X, Y int }\n\ntype Path struct{ Pts []Point }\n\n"
+    first = "func samePoint(a, b *Point) bool { return deriveEqual(a, b) }\n"
+    new = "// sameOther compares the other way.\nfunc sameOther(a, b %s) bool { return %s(a, b) } // trailing\n" % (t2, second)
+    v1 = {"a.go": head + first}
+    if where == "same-file":
+        v2 = {"a.go": head + first + "\n" + new}
+    elif where == "before":
+        v2 = {"a.go": head + new + "\n" + first}
+    else:
+        v2 = {"a.go": head + first, "b.go": "package hist\n\n" + new}
+    return v1, v2
 
 
 def write_pkg(d, files, derived=None):
@@ -164,8 +187,16 @@ def write_pkg(d, files, derived=None):
             f.write(derived)
 
 
-def run_once(binp, d):
-    rc, err, to = common.run_goderive(binp, d, ["."], timeout=60, mem_gb=4)
+def read_sources(d):
+    out = {}
+    for f in sorted(os.listdir(d)):
+        if f.endswith(".go") and f != "derived.gen.go":
+            out[f] = open(os.path.join(d, f)).read()
+    return out
+
+
+def run_once(binp, d, flags=()):
+    rc, err, to = common.run_goderive(binp, d, list(flags) + ["."], timeout=60, mem_gb=4)
     p = os.path.join(d, "derived.gen.go")
     data = open(p, "rb").read() if os.path.exists(p) else None
     return rc, data, err, to
@@ -205,13 +236,17 @@ def run(rep):
     try:
         # scratch outputs of v1 and v2
         scratch = {}
-        for hi, (name, cls, v1, v2) in enumerate(hs):
+        hs = [h if len(h) == 5 else h + ([],) for h in hs]
+        for hi, (name, cls, v1, v2, flags) in enumerate(hs):
             stats["classes"][cls] = stats["classes"].get(cls, 0) + 1
+            if flags:
+                stats["with_flags"] = stats.get("with_flags", 0) + 1
             for vi, files in ((1, v1), (2, v2)):
                 d = os.path.join(root, "s%d_%d" % (hi, vi))
                 write_pkg(d, files)
-                rc, data, err, to = run_once(binp, d)
+                rc, data, err, to = run_once(binp, d, flags)
                 scratch[(hi, vi)] = (rc, data, err)
+                scratch[(hi, vi, "src")] = read_sources(d)
                 if to or "panic:" in err or "goroutine " in err:
                     rep.violation("goderive crashed or hung on history %s v%d: %s" % (name, vi, err[-300:]),
                                   {"history": name, "files": files}, True)
@@ -221,7 +256,7 @@ def run(rep):
                         rep.violation("from-scratch output of history %s v%d does not type-check: %s" % (name, vi, verr),
                                       {"history": name, "files": files}, True)
         # incremental runs
-        for hi, (name, cls, v1, v2) in enumerate(hs):
+        for hi, (name, cls, v1, v2, flags) in enumerate(hs):
             rc1, d1, _ = scratch[(hi, 1)]
             rc2, d2, _ = scratch[(hi, 2)]
             if rc2 != 0:
@@ -235,30 +270,38 @@ def run(rep):
                     for k in offsets(rng, len(data), rep.tier):
                         olds.append(("%s[:%d]" % (src, k), data[:k]))
             for oi, (oname, old) in enumerate(olds):
-                jobs.append((hi, oi, name, cls, v2, oname, old, rc2, d2))
+                jobs.append((hi, oi, name, cls, v2, oname, old, rc2, d2, flags))
 
         def work(job):
-            hi, oi, name, cls, v2, oname, old, rc2, d2 = job
+            hi, oi, name, cls, v2, oname, old, rc2, d2, flags = job
             d = os.path.join(root, "i%d_%d" % (hi, oi))
             write_pkg(d, v2, old)
-            rc, data, err, to = run_once(binp, d)
+            rc, data, err, to = run_once(binp, d, flags)
+            srcs = read_sources(d)
             tc = None
-            if rc == 0 and data is not None and data != d2:
+            if rc == 0 and data is not None and (data != d2 or srcs != scratch[(hi, 2, "src")]):
                 tc = typechecks(d)
             shutil.rmtree(d, ignore_errors=True)
-            return job, rc, data, err, to, tc
+            return job, rc, data, err, to, tc, srcs
 
         with ThreadPoolExecutor(max_workers=12) as ex:
             results = list(ex.map(work, jobs))
         distinct = set()
         known_lines = {}
-        for (hi, oi, name, cls, v2, oname, old, rc2, d2), rc, data, err, to, tc in results:
+        for (hi, oi, name, cls, v2, oname, old, rc2, d2, flags), rc, data, err, to, tc, srcs in results:
             stats["runs"] += 1
             if oname != "v1-output":
                 stats["truncations"] += 1
             if old:
                 distinct.add((name, oname))
             same = (rc == rc2) and (data == d2)
+            if same and srcs != scratch[(hi, 2, "src")]:
+                bad = sorted(f for f in set(srcs) | set(scratch[(hi, 2, "src")]) if srcs.get(f) != scratch[(hi, 2, "src")].get(f))
+                rep.violation("history %s (flags %s), old derived.gen.go = %s: user file(s) %s after the run differ from the from-scratch run" % (
+                    name, " ".join(flags), oname, bad),
+                    {"history": name, "flags": flags, "old_state": oname, "v2": v2, "got": {f: srcs.get(f) for f in bad},
+                     "want": {f: scratch[(hi, 2, "src")].get(f) for f in bad}}, True)
+                continue
             if len(rep.cov["samples"]) < 5 and oi == 1:
                 rep.cov["samples"].append({"history": name, "class": cls, "old": oname, "identical_to_scratch": same})
             if to or "panic:" in err:
@@ -303,7 +346,7 @@ def run(rep):
             what = ("file after the run differs from the from-scratch file" if rc == rc2 else "exit status %s, from scratch %s" % (rc, rc2))
             rep.violation("history %s (%s), old derived.gen.go = %s: %s%s" % (
                 name, cls, oname, what, "" if tc is None or tc[0] else "; result does not type-check"),
-                {"history": name, "class": cls, "old_state": oname, "v2": v2,
+                {"history": name, "class": cls, "old_state": oname, "v2": v2, "flags": flags,
                  "old_bytes_hex": (old or b"").hex()[:20000], "stderr": err[-500:]}, True)
             if len(rep.violations) > 6:
                 break
